@@ -71,6 +71,14 @@ RULE_DOC = {
     "C09-presize": "decoding constructors pre-size with the number of input units (a lower bound of the length)",
     "C10-ctor": "StaticBuffer / TextLen / Capacity values are built only behind their bound",
     "C11-inplace": "Extend appends into the receiver's own buffer",
+    "C20-views": "len / is_empty / as_str / as_bytes are the storage views on every target",
+    "C13-pair": "plain form = try form + the message panic",
+    "C11-fmt": "fmt::Write for LeanString is push_str / push",
+    "C11-ops": "Add / AddAssign append to the left operand through push_str",
+    "C05-errsink": "where no ReserveError can be returned, it reaches the message panic",
+    "T11-items": "collecting impls append every element before requesting the next, from one polling site",
+    "C10-tags": "inline tag writers / readers agree (the static-to-inline move uses them)",
+    "NOSTATE": "the crate keeps no state between calls",
     "C05-errused": "no Result<_, ReserveError> is discarded",
     "C05-ownalloc": "nothing outside the heap-buffer module allocates directly",
     "C06-pair": "plain form = try form + the message panic",
@@ -119,6 +127,7 @@ def rules_C05(ctx):
     r_reach.rule_C09_no_other_alloc(ctx, rule="C05-ownalloc")
     r_api.rule_errors_not_dropped(ctx)
     r_api.rule_try_never_panics_on_alloc(ctx)
+    r_api.rule_error_reaches_panic(ctx)
 
 
 def rules_C02(ctx):
@@ -143,6 +152,8 @@ def rules_C13(ctx):
     ctx.take_ts(["R-erratomic", "R2"], fn_filter=lambda fn: "shrink" in fn)
     r_layout.rule_capacity_roots(ctx)
     r_moves.realloc_sites_keep_text(ctx, "C13-realloc")
+    # the plain forms are the try_ forms plus the message panic: no fallback to another request
+    r_api.rule_pairing(ctx, rule="C13-pair")
     # an in-place shrink hands the allocator the size of the whole block (header, slot, text)
     r_layout.rule_layout_agreement(ctx)
     r_layout.rule_len_slot(ctx)
@@ -159,6 +170,9 @@ def rules_C11(ctx):
     r_growth.rule_growth_via_reserve(ctx, rule="C11-append")
     # extend appends into the target's own buffer (adopting a piece's buffer drops the reserved one)
     r_retain.rule_extend_inplace(ctx, rule="C11-inplace")
+    # the formatting and operator front ends are the appends themselves (no checkpoint copy, no rebuilt result)
+    r_deleg.rule_C15(ctx, rule="C11-fmt")
+    r_deleg.rule_operator_appends(ctx, rule="C11-ops")
     # "owns its storage exclusively" is judged from the reference count: it has to equal the number of handles
     ctx.take_ts(["R2", "R3", "P1", "DUP"])
     # the public reserve / with_capacity / appends reach the storage layer's operation on every path
@@ -172,6 +186,7 @@ def rules_C18(ctx):
     # the predicate runs inside Repr::retain (whose guard publishes what was kept), for every storage state
     r_api.rule_wrappers_delegate(ctx, rule="C18-wrap", only=("try_retain",))
     r_retain.rule_items_appended(ctx, rule="C18-items", traits=("core::iter::traits::collect::FromIterator", "core::iter::traits::collect::Extend"))
+    r_own.rule_no_hidden_state(ctx)
 
 
 def rules_C01(ctx):
@@ -190,6 +205,9 @@ def rules_C01(ctx):
     # the bytes moved by the mutators and copied by the constructors are the right ones (affine forms)
     r_moves.rule_moves(ctx)
     r_moves.rule_retain_loop(ctx)
+    # the collecting impls take every element once, in order, and stop at the first None
+    r_retain.rule_items_appended(ctx, rule="T11-items", traits=("core::iter::traits::collect::FromIterator", "core::iter::traits::collect::Extend"))
+    r_own.rule_no_hidden_state(ctx)
     # len / is_empty / as_str / as_bytes are the storage layer's views; is_empty is len() == 0
     r_deleg.rule_views(ctx, rule="T10-views")
     r_api.rule_wrappers_delegate(ctx, rule="T8-wrap")
@@ -275,6 +293,8 @@ def rules_C20(ctx):
     r_layout.rule_layout_agreement(ctx)
     r_layout.rule_slot_decision(ctx)
     r_layout.rule_len_slot(ctx)
+    # ... and the views mean the same on every target: is_empty is len() == 0, not a per-target shortcut
+    r_deleg.rule_views(ctx, rule="C20-views")
 
 
 def rules_C08(ctx):
@@ -312,6 +332,10 @@ def rules_C10(ctx):
     r_layout.rule_reserve_post(ctx)
     # a borrowed length that does not fit the length word is refused, on every target
     r_size.rule_checked_ctors(ctx, rule="C10-ctor")
+    # a static text that moves into the handle (reserve / ensure_modifiable on a short static string)
+    # goes through the audited inline writers: a full inline buffer has no tag byte to write
+    r_text.rule_T1(ctx, rule="C10-tags")
+    r_text.rule_T5(ctx)
 
 
 PROPS = {
